@@ -199,6 +199,8 @@ KEY_DOMAINS = {
 	"bool": [True, False],
 	"date": [V.D0, date(2021, 2, 28), date(1999, 12, 31)],
 	"hash": [1, 2**61, -(2**61 - 1) + 1, 2**61 - 1 + 1, 0, 2],   # ints colliding modulo 2**61-1
+	"intbool": [1, True, 0, False, 2, 1],
+	"eqmix": [1, True, 1.0, 0, False, 0.0, 2],                   # group keys only (float kind is not a legal join key)                        # values equal under == but of different type (kind int)
 }
 
 
@@ -211,7 +213,7 @@ def gen_key_column(rng, kind, n, p_none, dom_size=3):
 
 def gen_join_spec(rng, max_rows=8, how=None, nkeys=None, unique_left=None, unique_right=None):
 	nkeys = nkeys or rng.choice([1, 1, 2, 2, 3])
-	kinds = [rng.choice(["int", "str", "bool", "date", "int", "str", "hash"]) for _ in range(nkeys)]
+	kinds = [rng.choice(["int", "str", "bool", "date", "int", "str", "hash", "intbool"]) for _ in range(nkeys)]
 	nl = rng.choice([0, 1, 2, 3, max_rows // 2, max_rows])
 	nr = rng.choice([0, 1, 2, 3, max_rows // 2, max_rows])
 	p_none = rng.choice([0.0, 0.0, 0.15, 0.4])
@@ -307,7 +309,7 @@ APPLY_FUNCS = {
 def gen_agg_spec(rng, max_rows=8, op=None):
 	n = rng.choice([1, 2, 3, 4, max_rows // 2, max_rows, max_rows])
 	nkeys = rng.choice([1, 1, 2, 3])
-	kinds = [rng.choice(["str", "int", "bool", "date", "hash"]) for _ in range(nkeys)]
+	kinds = [rng.choice(["str", "int", "bool", "date", "hash", "intbool", "eqmix"]) for _ in range(nkeys)]
 	p_none = rng.choice([0.0, 0.2, 0.5])
 	dom = rng.choice([1, 2, 2, 3])
 	keys = [gen_key_column(rng, k, n, p_none, dom) for k in kinds]
